@@ -55,6 +55,17 @@ type knownFile struct {
 	} `json:"fixed"`
 }
 
+// instJob is one harness instance of a run, with its (latest) exploration result.
+type instJob struct {
+	h       harnessCfg
+	full    string
+	f       *ssa.Function
+	params  map[string]int
+	res     *gosx.Result
+	share   time.Duration
+	retried bool
+}
+
 func loadKnown() (*knownFile, error) {
 	var kf knownFile
 	data, err := os.ReadFile(filepath.Join(verifDir, "known_findings.json"))
@@ -206,6 +217,7 @@ func cmdRun(args []string) int {
 	perSite := map[string]*gosx.SiteStat{}
 	crossChecked, crossDisagree := int64(0), int64(0)
 
+	var jobs []*instJob
 	for _, h := range pc.Harnesses {
 		if *only != "" && !strings.Contains(h.Func, *only) {
 			continue
@@ -236,38 +248,83 @@ func cmdRun(args []string) int {
 		}
 		for _, inst := range insts {
 			params := mergeParams(base, inst)
-			cfg := defaultCfg()
-			cfg.Workers = *workers
-			cfg.Seed = seed
-			if h.MaxSteps > 0 {
-				cfg.MaxSteps = h.MaxSteps
+			jobs = append(jobs, &instJob{h: h, full: full, f: f, params: params})
+		}
+	}
+
+	runJob := func(j *instJob, share time.Duration) {
+		h := j.h
+		cfg := defaultCfg()
+		cfg.Workers = *workers
+		cfg.Seed = seed
+		if h.MaxSteps > 0 {
+			cfg.MaxSteps = h.MaxSteps
+		}
+		if h.SolverMs > 0 {
+			cfg.SolverTimeout = h.SolverMs
+		}
+		if *tier == "thorough" {
+			cfg.CrossCheckPct = 2
+		}
+		cfg.WallBudget = share
+		cfg.Witnesses = 4
+		ex := gosx.NewExplorer(P, j.f, j.params, cfg)
+		res := ex.Run()
+		j.res = res
+		j.share = share
+		fmt.Fprintf(os.Stderr, "[%s] %s(%s): paths=%d decisions=%d queries=%d viol=%d exhaustive=%v wall=%.1fs %v\n", pc.Property, h.Func, paramString(j.params),
+			res.Paths, res.Decisions, res.Solver.Queries, len(res.Violations), res.Exhaustive, res.Wall.Seconds(), res.Inconclusive)
+	}
+	stoppedByBudget := func(j *instJob) bool {
+		if j.res == nil || j.res.Exhaustive || len(j.res.Violations) > 0 {
+			return false
+		}
+		for reason := range j.res.Inconclusive {
+			if strings.HasPrefix(reason, "budget: exploration stopped") {
+				return true
 			}
-			if h.SolverMs > 0 {
-				cfg.SolverTimeout = h.SolverMs
+		}
+		return false
+	}
+	// first pass: an instance may use up to three fair shares of what is left (never less than
+	// 20 s), so that one heavy instance cannot starve the ones after it
+	for i, j := range jobs {
+		left := wallBudget - time.Since(t0)
+		share := left * 3 / time.Duration(len(jobs)-i)
+		if share > left {
+			share = left
+		}
+		if share < 20*time.Second {
+			share = 20 * time.Second
+		}
+		runJob(j, share)
+	}
+	// second pass: what is left of the wall budget goes to the instances the first pass had to stop
+	// (exploration is stateless, so they start again; only worth it with clearly more time)
+	for {
+		var pending []*instJob
+		for _, j := range jobs {
+			if stoppedByBudget(j) && !j.retried {
+				pending = append(pending, j)
 			}
-			if *tier == "thorough" {
-				cfg.CrossCheckPct = 2
-			}
-			if wallBudget > 0 {
-				// an instance may use up to three fair shares of what is left (never less than 20 s),
-				// so that one heavy instance cannot starve the ones after it
-				left := wallBudget - time.Since(t0)
-				share := left * 3 / time.Duration(remaining)
-				if share > left {
-					share = left
-				}
-				if share < 20*time.Second {
-					share = 20 * time.Second
-				}
-				cfg.WallBudget = share
-			}
-			remaining--
-			if remaining < 1 {
-				remaining = 1
-			}
-			cfg.Witnesses = 4
-			ex := gosx.NewExplorer(P, f, params, cfg)
-			res := ex.Run()
+		}
+		if len(pending) == 0 {
+			break
+		}
+		left := wallBudget - time.Since(t0)
+		j := pending[0]
+		share := left / time.Duration(len(pending))
+		j.retried = true
+		if share < 2*j.share {
+			continue
+		}
+		fmt.Fprintf(os.Stderr, "[%s] second pass for %s(%s) with %.0fs\n", pc.Property, j.h.Func, paramString(j.params), share.Seconds())
+		runJob(j, share)
+	}
+
+	for _, j := range jobs {
+		h, res, full, params := j.h, j.res, j.full, j.params
+		{
 			rep := harnessReport{Harness: h.Func, Params: paramString(params), Paths: res.Paths, Pruned: res.Pruned, Decisions: res.Decisions,
 				Steps: res.Steps, Outcomes: res.Outcomes, Inconclusive: res.Inconclusive, Sites: res.Sites, Exhaustive: res.Exhaustive,
 				WallS: res.Wall.Seconds(), Queries: res.Solver.Queries, MaxDecisions: res.MaxPathDecisions}
@@ -275,8 +332,6 @@ func cmdRun(args []string) int {
 				rep.Inconclusive = nil
 			}
 			reports = append(reports, rep)
-			fmt.Fprintf(os.Stderr, "[%s] %s(%s): paths=%d decisions=%d queries=%d viol=%d exhaustive=%v wall=%.1fs %v\n", pc.Property, h.Func, rep.Params,
-				res.Paths, res.Decisions, res.Solver.Queries, len(res.Violations), res.Exhaustive, res.Wall.Seconds(), res.Inconclusive)
 			totalPaths += res.Paths
 			totalSym += res.SymbolicPaths
 			totalDec += res.Decisions
